@@ -243,6 +243,28 @@ pub fn run_case(ctx: &Ctx, env: &Env, cs: u64, side: &mut Option<std::fs::File>)
     // counters of this case's own connection (client port), not of the process
     let st = crate::alloc::key_stats(obs.client_port);
     let sent = wl as u64;
+    if !quiet && crate::env::panics_count() > panics_before {
+        // a worker that panicked never reports the end of its task; the panic itself is the verdict
+        let ps = crate::env::panics_take();
+        let p = ps.last().unwrap();
+        let site = p.location.rsplit('/').next().unwrap_or("").to_string();
+        rep.eval(None);
+        rep.violation(Violation {
+            signature: format!("C14/panic/{}", site),
+            what: format!("panic in thread {:?}: {} at {}", p.thread, p.message, p.location),
+            detail: J::obj()
+                .set("class", J::s(&c.label))
+                .set("wire_head", J::S(crate::util::esc(&c.wire, 300)))
+                .set("end", J::s(format!("{:?}", c.end)))
+                .set("panics", J::A(ps.iter().map(|p| J::s(format!("{} | {} | {}", p.thread, p.message, p.location))).collect())),
+            case_seed: cs,
+            mode: "native".into(),
+        });
+        if let Some(f) = side.as_mut() {
+            let _ = writeln!(f, "END {}", cs);
+        }
+        return;
+    }
     if !quiet {
         // the connection thread is still busy: allocation counters cannot be attributed
         rep.inconclusive("connection task did not finish within 5 s after the case");
